@@ -80,3 +80,25 @@ PROPS["C20"] = dict(
     level_note="Trusts the naive matcher (cross-checked against a second backtracking matcher every case) and the regex crate for single-character case folding as the property defines it.",
     technique="differential testing against an executable reference model, exhaustive short-pattern enumeration",
 )
+
+PROPS["C04"] = dict(
+    quick=[st("quick", 75)],
+    thorough=[st("thorough", 900)],
+    floor=dict(quick=300, thorough=1000),
+    rule="sequences of 1-6 record batches (incl. empty and zero-column) over every data type in random physical layouts, with per-field dictionary histories (same Arc / equal new Arc / extended / replaced / shrunk / shared / nested) written by FileWriter, StreamWriter, StreamEncoder and the Flight encoder under random IpcWriteOptions (alignment 8-64, V4-legacy/V4/V5, none/lz4/zstd, Resend/Delta) and Flight message size limits 1 B..2 MB, read back by FileReader (+projection, set_index), StreamReader, StreamDecoder, FlightRecordBatchStream, flight_data_to_batches; oracle: schema equality incl. metadata and batch-by-batch logical equality (row-concatenation for Flight), projection == project-after-full-read; class = (sink, type-chain class, option class, dictionary event class, outcome)",
+    level="exploration",
+    level_text="Round-trip oracle on generated batch sequences for all four IPC encoders and their readers, comparing logical values through the value model; quick ~15k sequences/shard-run, thorough ~1.8M evaluations per shard.",
+    level_note="Writer Err is a rejection; Flight batch boundaries, buffer identity and physical encoding of results are not asserted.",
+    technique="round-trip / differential oracle on generated inputs and option sets",
+)
+
+PROPS["C05"] = dict(
+    quick=[st("quick", 75)],
+    thorough=[st("thorough", 900)],
+    floor=dict(quick=300, thorough=1000),
+    rule="Arrow schemas the Parquet writer accepts (primitive, decimal, temporal, byte/view/fixed, dictionary, run-end, struct/list/large-list/list-view/fixed-size-list/map nesting <=3) x WriterProperties (version, encodings, dictionary + page limits forcing fallback, page/row-group/write-batch limits, codecs, statistics, bloom, CDC) x random write()/flush() partitions x reader batch sizes; sections serial, parallel (one thread per leaf column writer with random yields and close order; distinct completion orders counted), flat (long single columns), concat (append_column re-splice), compat (equivalent input types); oracle: schema (names/types/nullability) and rows equal through the value model; class = (section, shape class, leaf class, property tags, outcome)",
+    level="exploration",
+    level_text="Round-trip oracle on generated files: quick 24k files, thorough 320k, with the multi-threaded column-writer path under random thread schedules (distinct completion orders are measured and reported).",
+    level_note="Reads without the embedded Arrow schema, out-of-domain temporal values, file bytes and layout are not asserted; 'not supported' outcomes are rejections.",
+    technique="round-trip oracle on generated inputs, option sets and thread schedules",
+)
